@@ -7,7 +7,7 @@
 // Profile switch `c.pullable` (profile P): the upstream emits Data only against an outstanding Pull,
 // the sink pulls only when it has no Pull outstanding.  Profile R is `!c.pullable`.
 // ===================================================================================================
-//@include env_dn.rs OP=$OP TP="$TP" G="$G" GNAME=$GNAME HEAP=$HEAP O=$O ORPHAN="g.up.phase != Up::Live" QUIET="g.up.phase != Up::Subscribing" SINKGATE=true
+//@include env_dn.rs OP=$OP TP="$TP" G="$G" GNAME=$GNAME HEAP=$HEAP O=$O ORPHAN="g.up.phase != Up::Live" QUIET="g.up.phase != Up::Subscribing" LITE=false SINKGATE=true
 //@include env_up.rs OP=$OP TP="$TP" G="$G" GNAME=$GNAME HEAP=$HEAP I=$I SFX="" UPF=up EVGUARD=true SUBPOST=true SUBPRE=true
 /// Every history of one subscription with conformant peers is an execution of `world`.
 #[verifier::exec_allows_no_decreases_clause]
